@@ -28,6 +28,11 @@ def _mods():
 
 
 _CLS_CACHE = {}
+REFUSE = set()          # names of layers whose next send() raises (once)
+
+
+class Refused(Exception):
+    pass
 
 
 def _rec_class(name):
@@ -49,6 +54,9 @@ def _rec_class(name):
             self.interface = Iface(self)
 
         def send(self, d):
+            if self.NAME in REFUSE:
+                REFUSE.discard(self.NAME)
+                raise Refused("layer %s refuses this send" % self.NAME)
             Rec.LOG.append(("send", self.NAME, d))
             self.toLower(d + (self.NAME,))
 
@@ -75,6 +83,18 @@ def _shape_names(shape):
 def _build(shape, style, rev):
     """-> (stack, names per position bottom->top, log)"""
     L, Y = _mods()
+    # locks created by the layers are recording, non-blocking ones: acquiring a held lock is reported instead of hanging the run
+    from checks import c12
+    import threading as _threading
+
+    class FakeThreading(object):
+        def Lock(self_):
+            return c12.RecLock("layer lock")
+
+        def __getattr__(self_, n):
+            return getattr(_threading, n)
+    L.threading = FakeThreading()
+    REFUSE.clear()
     log = []
     names = _shape_names(shape)
     decl = []
@@ -202,6 +222,27 @@ def h_dataflow(ctx, depth, options):
         for n in names[pos]:
             iface = st.getLayerInterface(_rec_class(n))
             obs.append(("interface-found-by-class:%s" % n, iface is not None and iface._layer.NAME == n))
+    # a send that one layer refuses (it raises): the caller gets the error, and the next send travels the whole stack again
+    from checks import c12
+    below_top = [n for grp in names[:-1] for n in grp]
+    if below_top:
+        who = ctx.choice("refusing_layer", below_top)
+        REFUSE.add(who)
+        raised = False
+        try:
+            st.send(())
+        except Refused:
+            raised = True
+        except c12.WouldBlock:
+            pass
+        obs.append(("a refused send is reported to the sender", raised))
+        del log[:]
+        try:
+            st.send(())
+            arrivals = [e[2] + (e[1],) for e in log if e[0] == "send" and e[1] in names[0]]
+            obs.append(("after a refused send the next one is offered to every member and continues downward as before", arrivals == ref_down(names)))
+        except c12.WouldBlock as e:
+            obs.append(("after a refused send the next one is not blocked (%s)" % e, False))
     return obs
 
 
